@@ -375,13 +375,23 @@ Proof.
       destruct (to_base 16 z) as [|c1 [|c2 [|c3 t]]]; simpl in Hlen; try discriminate.
       cbn [app length]. unfold hexint_de. cbn [ascii_eqb]. 
       replace (ascii_eqb "-"%char "-"%char) with true by (symmetry; apply ascii_eqb_refl).
-      cbn [length Nat.ltb Nat.leb firstn]. unfold from_base16. rewrite Hp. reflexivity.
+      cbn [length Nat.ltb Nat.leb firstn].
+      simpl in Hc. apply andb_true_iff in Hc as [Hc1 Hc]. apply andb_true_iff in Hc as [Hc2 _].
+      destruct (clean16_hex c1 Hc1) as (Hh1 & _). destruct (clean16_hex c2 Hc2) as (Hh2 & _).
+      cbn [is_hex forallb]. rewrite Hh1, Hh2. cbn [andb negb].
+      unfold from_base16. rewrite Hp. reflexivity.
     + cbn [andb]. destruct (Z.leb_spec 256 z); [|lia].
       destruct (to_base 16 z) as [|c1 [|c2 [|c3 [|c4 t]]]]; simpl in Hlen; try discriminate.
       cbn [app length]. unfold hexint_de.
       replace (ascii_eqb "+"%char "-"%char) with false by reflexivity.
       replace (ascii_eqb "+"%char "+"%char) with true by (symmetry; apply ascii_eqb_refl).
-      cbn [length Nat.ltb Nat.leb firstn]. unfold from_base16. rewrite Hp. reflexivity.
+      cbn [length Nat.ltb Nat.leb firstn].
+      simpl in Hc. apply andb_true_iff in Hc as [Hc1 Hc]. apply andb_true_iff in Hc as [Hc2 Hc].
+      apply andb_true_iff in Hc as [Hc3 _].
+      destruct (clean16_hex c1 Hc1) as (Hh1 & _). destruct (clean16_hex c2 Hc2) as (Hh2 & _).
+      destruct (clean16_hex c3 Hc3) as (Hh3 & _).
+      cbn [is_hex forallb]. rewrite Hh1, Hh2, Hh3. cbn [andb negb].
+      unfold from_base16. rewrite Hp. reflexivity.
 Qed.
 
 Lemma hexint_rt e : RT e HexInt.
